@@ -340,6 +340,10 @@ def r12_2(ctx):
                 for pr in pl['proj']:
                     if isinstance(pr, dict) and pr.get('of') in ('raw::build::BuilderNode', 'raw::Transition'):
                         fields.add((pr['of'].rsplit('::', 1)[-1], pr['name']))
+        # the mixing steps must stay injective-ish: a saturating (absorbing) operation pins the accumulator at the ceiling after a few
+        # steps, after which only the last fields mixed in decide the row and whole families of nodes share one row
+        absorbing = sorted({(g.callee(t) or '').rsplit('::', 1)[-1] for g in members for _, t in g.calls() if (g.callee(t) or '').rsplit('::', 1)[-1].startswith('saturating_') and 'num::' in (g.callee(t) or '')})
+        ctx.check(R, not absorbing, 'hash-mixing', 'the bucket function mixes with %s: the accumulator sticks at the ceiling, the fields mixed in before that point no longer influence the row and equal-suffix nodes evict one another' % absorbing, fn=h)
         want = {('BuilderNode', 'is_final'), ('BuilderNode', 'final_output'), ('BuilderNode', 'trans'), ('Transition', 'inp'), ('Transition', 'out'), ('Transition', 'addr')}
         ctx.check(R, fields == want, 'hash-fields', 'the bucket function must read exactly the fields equality compares (missing %s, extra %s): otherwise equal nodes land in different rows or rows degenerate' % (sorted(want - fields), sorted(fields - want)), fn=h)
     else:
